@@ -186,7 +186,7 @@ func (c *Ctl) runStep(batch []Event, known []client.Object, supported string) (r
 	}()
 	if capturePanic != "" {
 		res.Outcome, res.Phase, res.Panic, res.Site = "panic", "capture", capturePanic, siteOf(capturePanic)
-		res.View = storeView + " ch=1 ns=- gw=- ls=- rs=- plus=0 ps=- bt=- pt=- br=- hp=- rt=- ft=- dp=- fx=- ur=0 up=- shadow=-"
+		res.View = storeView + " ch=1 ns=- gw=- ls=- rs=- plus=0 ps=- bt=- pt=- br=- hp=- rt=- ft=- dp=- fx=- ur=0 up=- pu=0 nl=- shadow=-"
 		return res
 	}
 
@@ -201,7 +201,7 @@ func (c *Ctl) runStep(batch []Event, known []client.Object, supported string) (r
 	// 3. apply
 	out := c.Apply(nil)
 	changed := out.Change != 0 || out.Panic != ""
-	res.View = fmt.Sprintf("%s ch=%s %s %s %s shadow=%s", storeView, b01(changed), bind, plus, invView(out), shadow)
+	res.View = fmt.Sprintf("%s ch=%s %s %s %s %s shadow=%s", storeView, b01(changed), bind, plus, invView(out), c.parentReport(out), shadow)
 	if Explain && out.Graph != nil {
 		explain(out)
 	}
@@ -286,7 +286,7 @@ func RunCase(cs *Case, stepTimeout time.Duration) CaseResult {
 			}
 		case <-time.After(stepTimeout):
 			cr.Steps = append(cr.Steps, StepResult{Outcome: "hang", Elapsed: stepTimeout,
-				View: "ev=- sk=" + supported + " ch=1 ns=- gw=- ls=- rs=- plus=0 ps=- bt=- pt=- br=- hp=- rt=- ft=- dp=- fx=- ur=0 up=- shadow=-"})
+				View: "ev=- sk=" + supported + " ch=1 ns=- gw=- ls=- rs=- plus=0 ps=- bt=- pt=- br=- hp=- rt=- ft=- dp=- fx=- ur=0 up=- pu=0 nl=- shadow=-"})
 			cr.Hang = i
 			return cr
 		}
